@@ -36,11 +36,40 @@ class ExprMixin:
             return False
         if any(self._has_quant(c) for c in st.pc):
             return True   # no reliable timeout with quantifiers/lambdas: keep the path (its VCs are then vacuous if infeasible)
+        pc = st.pc
+        if sum(1 for c in pc if self._big_regex(c)) >= 2:
+            # several large regular-language atoms: z3's timeout is unreliable there; they are left out of the
+            # feasibility query (fewer constraints = more paths kept, which is sound)
+            pc = [c for c in pc if not self._big_regex(c)]
+            if not pc:
+                return True
         self.stats["feasibility_queries"] += 1
         s = z3.Solver()
         s.set("timeout", self.feas_timeout_ms)
-        s.add(*st.pc)
+        s.add(*pc)
         return s.check() != z3.unsat
+
+    def _big_regex(self, e):
+        key = ("rx", e.get_id())
+        hit = self._quant_cache.get(key)
+        if hit is not None:
+            return hit
+        seen, stack, res, inre = set(), [e], False, False
+        while stack:
+            x = stack.pop()
+            i = x.get_id()
+            if i in seen:
+                continue
+            seen.add(i)
+            if z3.is_app(x):
+                if x.decl().kind() == z3.Z3_OP_SEQ_IN_RE:
+                    inre = True
+                stack.extend(x.children())
+            if len(seen) > 150 and inre:
+                res = True
+                break
+        self._quant_cache[key] = res
+        return res
 
     def _has_quant(self, e):
         key = e.get_id()
@@ -253,6 +282,8 @@ class ExprMixin:
             if isinstance(v.t, (str, int, type(None))) or type(v.t).__str__ is not object.__str__:
                 return Val(STR, z3.StringVal(str(v.t)))
             raise Unsupported(f"str() of python object {type(v.t)}")
+        if v.ty.kind == "opt" and v.ty.args[0].kind in ("str", "int"):
+            return Val(STR, z3.If(self.is_none(v), z3.StringVal("None"), self.to_str(self.unwrap(v)).t))
         if v.ty.kind == "int":
             return Val(STR, z3.IntToStr(v.t))  # valid for non-negative ints only
         f = self.uf("str_of_" + self.reg._sname(v.ty), [self.reg.sort(v.ty)], z3.StringSort())
@@ -582,6 +613,13 @@ class ExprMixin:
                 lo = next(it) if n.slice.lower is not None else None
                 hi = next(it) if n.slice.upper is not None else None
                 step = next(it) if n.slice.step is not None else None
+                if base.ty.kind == "opt":        # None[...] raises TypeError
+                    some, none = self.branch(s, z3.Not(self.is_none(base)), "slice-base")
+                    if none is not None:
+                        self.raise_(none, TypeError)
+                    if some is None:
+                        continue
+                    s, base = some, self.unwrap(base)
                 outs.append((s, self.do_slice(base, lo, hi, step)))
             return outs
         for s, (base, idx) in self.ev_many([n.value, n.slice], st):
